@@ -573,7 +573,10 @@ def run_check(prop, mod, tier, seed, tmp, replay, t_start, log):
             "evaluations": len(results),
             "distinct_nontrivial": len(keys),
             "rule": getattr(mod, "RULE", ""),
-            "exhaustive": bool(gen_info.get("exhaustive", False)),
+            # the correspondence run is a bounded-exhaustive part plus random samples of an unbounded space: never "the
+            # finite space enumerated completely" (the unbounded claim is the theorems'); the bounded part is named apart
+            "exhaustive": False,
+            "bounded_exhaustive_part": bool(gen_info.get("exhaustive", False)),
             "samples": samples,
             "corpus_cases": n_corpus,
             "divergences_model_vs_impl": n_div,
